@@ -339,9 +339,20 @@ func burst(c Case, p *proc, latest, shown map[string]string, fd func(string, str
 	c.Burst = sent
 	const syncID = 950000
 	buf = append(buf, frame(Msg{Kind: "unknown"}.body(syncID))...)
-	if _, err := p.in.Write(buf); err != nil {
-		return nil // the process is gone: crash consistency is the other oracles' business
-	}
+	// written from a goroutine of its own: the server answers while it reads, and a client that
+	// does not drain those answers until its own write has completed deadlocks with it as soon
+	// as either pipe is full (a harness fault found on seed 66: a 1.3 MB burst)
+	wrote := make(chan error, 1)
+	go func() {
+		_, err := p.in.Write(buf)
+		wrote <- err
+	}()
+	defer func() {
+		select {
+		case <-wrote:
+		case <-time.After(20 * time.Second):
+		}
+	}()
 	res.Probes["bursts_of_changes_in_one_write"]++
 	var notifs [][]byte
 	for k := 0; ; k++ {
